@@ -143,7 +143,7 @@ def save_single_phasePlot(
 def show_multiple_phasePlot(
         fp_list,
         fn_list,
-        label=[""],
+        label=[],
         title="Diagram of states",
         legendOn=True,
         xLim=1,
